@@ -91,6 +91,24 @@ impl Out {
     }
     Ok(out)
   }
+  /// stream style, strictly: every line is one JSON object, no empty line anywhere (only the
+  /// line break that ends the output is allowed to be missing or present)
+  pub fn json_lines_strict(&self) -> Result<Vec<Value>, String> {
+    let s = self.stdout_str();
+    let body = s.strip_suffix('\n').unwrap_or(&s);
+    if body.is_empty() {
+      return Ok(vec![]);
+    }
+    let mut out = vec![];
+    for (i, line) in body.split('\n').enumerate() {
+      let v: Value = serde_json::from_str(line).map_err(|e| format!("line {i} is not one JSON object: {e}: {line:.200?}"))?;
+      if !v.is_object() {
+        return Err(format!("line {i} is not a JSON object: {line:.200?}"));
+      }
+      out.push(v);
+    }
+    Ok(out)
+  }
   pub fn json_array(&self) -> Result<Vec<Value>, String> {
     let s = self.stdout_str();
     let v: Value = serde_json::from_str(&s).map_err(|e| format!("output is not one JSON value: {e}: {:.200}", s))?;
